@@ -517,7 +517,9 @@ func (b *band) getCFListChannels() *lorawan.CFList {
 		}
 	}
 
-	if pl.Channels[0] == 0 {
+	// a frequency of 0 marks an unused slot, there is nothing to offer when
+	// all slots are unused
+	if pl.Channels == [5]uint32{} {
 		return nil
 	}
 
